@@ -58,13 +58,13 @@ func (dv *defaultVerifierPipeline) worker(ctx context.Context, wg *sync.WaitGrou
 			extra, noExists, err := dv.verifyRoot(root)
 			if err != nil {
 				verifPoint("sink.errsend.pre", vid, verifName(root))
-				errc <- err
+				sendErr(ctx, errc, err)
 				verifPoint("sink.errsend.post", vid, verifName(root))
 			}
 			// TODO: 1Root分のエラーしか出力しないようになってるから、全Root分の検査結果を出力する方がいいかも
 			if err := dv.handleErr(extra, noExists); err != nil {
 				verifPoint("sink.errsend.pre", vid, verifName(root))
-				errc <- err
+				sendErr(ctx, errc, err)
 				verifPoint("sink.errsend.post", vid, verifName(root))
 			}
 			verifPoint("sink.done", vid, verifName(root))
